@@ -42,14 +42,14 @@ def decSetEx (key value : Bytes) (e : Int) : Val → Int → Act :=
   decStrWrite (fun _ => some (some (.str value), some e, [Api.opSet key value false e], .unit)) (fun _ => .panic)
 
 def setExForm (key value : Bytes) (e : Int) : TxForm :=
-  ⟨true, some .strNil, .unit, Cmd.pan, decSetEx key value e, key⟩
+  ⟨true, some (.str []), .unit, Cmd.pan, decSetEx key value e, key⟩
 
 theorem setEX_eq (s : MState) (now : Int) (key value : Bytes) (seconds : Int) :
     Api.setEX s now key value seconds =
       (setExForm key value (wrap64 (now + wrap64 (seconds * 1000)))).run s now := by
   unfold Api.setEX TxForm.run setExForm keyTx
   simp only [if_true, Option.isNone_some, Bool.and_false, Bool.false_eq_true, if_false]
-  generalize writeKey s now key (some .strNil) = r
+  generalize writeKey s now key (some (.str [])) = r
   obtain ⟨s1, ok⟩ := r
   simp only [Api.asStr]
   cases hv : valOf s1 key with
@@ -64,7 +64,7 @@ theorem setPX_eq (s : MState) (now : Int) (key value : Bytes) (ms : Int) :
     Api.setPX s now key value ms = (setExForm key value (wrap64 (now + ms))).run s now := by
   unfold Api.setPX TxForm.run setExForm keyTx
   simp only [if_true, Option.isNone_some, Bool.and_false, Bool.false_eq_true, if_false]
-  generalize writeKey s now key (some .strNil) = r
+  generalize writeKey s now key (some (.str [])) = r
   obtain ⟨s1, ok⟩ := r
   simp only [Api.asStr]
   cases hv : valOf s1 key with
@@ -76,7 +76,7 @@ theorem setPX_eq (s : MState) (now : Int) (key value : Bytes) (ms : Int) :
         expOf_setExp_setVal hv]
 
 theorem setExForm_ok (key value : Bytes) (e : Int) (he : inInt64 e = true) : (setExForm key value e).OK := by
-  refine ⟨(fun h => nomatch h), (fun w h => by cases h; exact good_strNil), fun w e' _ _ => ?_⟩
+  refine ⟨(fun h => nomatch h), (fun w h => by cases h; exact good_str []), fun w e' _ _ => ?_⟩
   show (decSetEx key value e w e').GoodA
   unfold decSetEx
   apply Cmd.goodA_strWrite
